@@ -17,6 +17,12 @@
 // MutableOverlayWorld (over an empty base and over a basic base holding the
 // seed), and the world after every further attempt (accepted or rejected
 // AddFeature, applied or failing MergedChange), validated the same way.
+//
+// Part C (engine E1, multipoly.go): areas of several polygons, every polygon
+// independently an explicit s2 polygon or defined by path IDs whose paths are
+// valid / open / missing / too short / invalid themselves, in every order,
+// through every build mode, AddFeature(area) on both mutable worlds and the
+// replacement of a path under an accepted area; validated the same way.
 package main
 
 import (
@@ -239,7 +245,7 @@ func main() {
 	ops := hist.FeatureOps()
 	kit.Main(&kit.Check{
 		ID: "C37", Level: "exploration",
-		Rule: "Part A: every choice of one variant per slot of the worldkit menu extended with invalid variants x source order, built in five build modes (order-independent modes once); non-trivial = the source holds a feature that is invalid as given; distinct by menu choice. Part B: the C13 search (world kind x seed x first op; breadth-first over accepted AddFeature ops, deduplicated by private state), the validator run at every state and after every attempt (AddFeature accepted or rejected, MergedChange applied or failing). Oracle: independent validator over EachFeature: paths >= 2 points, every point resolves to a location, paths closed by reference form valid counter-clockwise loops, areas name only existing closed paths of >= 3 points (a boundary closed only by coordinates must be a valid counter-clockwise loop too).",
+		Rule: "Part A: every choice of one variant per slot of the worldkit menu extended with invalid variants x source order, built in five build modes (order-independent modes once); non-trivial = the source holds a feature that is invalid as given; distinct by menu choice. Part B: the C13 search (world kind x seed x first op; breadth-first over accepted AddFeature ops, deduplicated by private state), the validator run at every state and after every attempt (AddFeature accepted or rejected, MergedChange applied or failing). Part C: every sequence of 1..n polygon kinds (explicit s2 polygon | one path ID x path state | outer + hole path IDs x path states; every slot owns its IDs and grid patch) as one area, (a) built in the five build modes x source orders, (b) added with AddFeature to a BasicMutableWorld, a MutableOverlayWorld over an empty base and one over a basic base holding the points and paths, (c) for sequences naming only valid paths: each named path replaced with AddFeature by every other path state, on the same worlds and on an overlay whose base also holds the area; the validator is run on every world returned by a build and after every AddFeature (accepted or rejected); non-trivial = some polygon of the area is invalid as given (replacements: always); distinct by entry x sequence. Oracle: independent validator over EachFeature: paths >= 2 points, every point resolves to a location, paths closed by reference form valid counter-clockwise loops, areas name only existing closed paths of >= 3 points (a boundary closed only by coordinates must be a valid counter-clockwise loop too).",
 		Assumptions: []string{
 			"loop validity and orientation are decided in the plane on the E7 grid with exact integer arithmetic (features span < 1e-3 degrees, so planar and spherical answers agree)",
 			"a path is closed when its first and last entries are the same point feature; equal literal coordinates make a path a closed loop only where an area uses it as boundary",
@@ -259,8 +265,12 @@ func main() {
 			}
 			nA := kit.Product(rad) * int64(norders)
 			nB := int64(len(combos)) * int64(1+len(ops))
-			return kit.FuncSpace{N: nA + nB, F: func(i int64) kit.Result {
+			pc := newPartC(tier)
+			return kit.FuncSpace{N: nA + nB + pc.Len(), F: func(i int64) kit.Result {
 					var r kit.Result
+					if i >= nA+nB {
+						return pc.Run(i - nA - nB)
+					}
 					if i >= nA {
 						j := i - nA
 						var c hist.Combo
@@ -287,8 +297,8 @@ func main() {
 					choice := kit.Digits(i/int64(norders), rad)
 					runBuilds(slots, choice, order, &r)
 					return r
-				}}, fmt.Sprintf("part A: %d menu worlds x %d source orders x 5 build modes; part B: %d world kinds x seeds, histories of <= %d accepted ops over %d ops, %d AddFeature + %d MergedChange attempts at every state",
-					kit.Product(rad), norders, len(combos), opt.Depth, len(ops), len(ops), len(hist.MergedMenu(opt.MergedPairs)))
+				}}, fmt.Sprintf("part A: %d menu worlds x %d source orders x 5 build modes; part B: %d world kinds x seeds, histories of <= %d accepted ops over %d ops, %d AddFeature + %d MergedChange attempts at every state; %s",
+					kit.Product(rad), norders, len(combos), opt.Depth, len(ops), len(ops), len(hist.MergedMenu(opt.MergedPairs)), pc.describe())
 		},
 	})
 }
